@@ -47,7 +47,7 @@ func VerifC02_a3_find() {
 		}
 	case 2:
 		if nondetBool("qm-set") {
-			k := nondetStringUpTo("qm-key", 2)
+			k := nondetStringUpTo("qm-key", deep(2))
 			p.Qm = map[string]int{k: nondetInt("qm-val")}
 			bracketInKey = strings.ContainsAny(k, "[]")
 		}
@@ -130,7 +130,7 @@ func VerifC02_a3_body() {
 		verifAssert("prim:arrives-equal", x.gotPrim != nil && *x.gotPrim == v)
 		return
 	}
-	p := &svc.BodyattrPayload{Key: nondetString("key", 1), Item: &svc.Item{N: nondetInt("n"), S: nondetStringUpTo("s", 1)}}
+	p := &svc.BodyattrPayload{Key: nondetString("key", 1), Item: &svc.Item{N: nondetInt("n"), S: nondetStringUpTo("s", deep(1))}}
 	verifAssume(!strings.Contains(p.Key, "/"))
 	want := *p.Item
 	req, err := c.BuildBodyattrRequest(context.Background(), p)
